@@ -351,6 +351,10 @@ func (t *Tree) WalkDeleted(path []string, condition func(interface{}) bool, f fu
 	// to the entire Tree.
 	defer t.mu.Unlock()
 	t.mu.Lock()
+	if t.leafBranch == nil {
+		// Empty tree, nothing to delete.
+		return
+	}
 	if delBr, _ := t.internalDelete(path, condition, f, false); delBr {
 		t.leafBranch = nil
 	}
@@ -387,6 +391,10 @@ func (t *Tree) internalDelete(subpath []string, condition func(interface{}) bool
 			}
 			return len(t.leafBranch.(branch)) == 0, allLeaves
 		default:
+			// As in Query, only a single trailing glob may run past a leaf.
+			if len(subpath) != 0 {
+				return false, nil
+			}
 			if condition(t.leafBranch) {
 				// The second parameter is an empty path that will be filled as recursion
 				// unwinds for this leaf that will be deleted in its parent.
@@ -436,6 +444,10 @@ func (t *Tree) DeleteConditional(subpath []string, condition func(interface{}) b
 	// to the entire Tree.
 	defer t.mu.Unlock()
 	t.mu.Lock()
+	if t.leafBranch == nil {
+		// Empty tree, nothing to delete.
+		return nil
+	}
 	delBr, leaves := t.internalDelete(subpath, condition, func(interface{}) {}, true)
 	if delBr {
 		t.leafBranch = nil
